@@ -192,6 +192,9 @@ func (w *World) opaqueMethodImpl(ov *OpaqueVal, name string) opaqueMethodFn {
 			return e.callValue(f, nil, nil)
 		}
 	}
+	if ov.name == "http.body" && name == "Close" {
+		return func(e *Exec, ov *OpaqueVal, args []Value) Value { return nilIface }
+	}
 	if ov.name == "ctx" {
 		switch name {
 		case "Done":
